@@ -325,7 +325,11 @@ pub async fn handle_srt_packet(
             //   routing has mostly moved off it.
             //
             // Only data packets have seq != None (control packets have MSB set).
+            //
+            // Enhanced mode only: classic mode reproduces the reference scheduler
+            // (largest window / (in-flight + 1), nothing else) for every packet.
             if seq.is_some()
+                && !config_snap.mode.is_classic()
                 && (critical_window.is_critical_now(packet_time_ms)
                     || srtla_protocol::is_srt_data_retransmit(pkt))
                 && let Some(best_idx) = srtla_core::priority::select_best_quality_idx(connections)
